@@ -57,7 +57,9 @@ func (mf *memorySegmentFile) close() (err error) {
 }
 
 func (mf *memorySegmentFile) get() (io.Reader, int, error) {
-	data := mf.file.Bytes()
+	// the buffer goes back to segmentPool when the segment leaves the playlist and is
+	// then overwritten by a later segment: a reader must not share its bytes
+	data := append([]byte(nil), mf.file.Bytes()...)
 	return bytes.NewReader(data), len(data), nil
 }
 
